@@ -45,6 +45,11 @@ const StaleWhat = "process panic: send on closed channel (publish through a With
 // ViewUnsubWhat is matched by /verif/known_findings.json (third known finding).
 const ViewUnsubWhat = "process panic: close of closed channel (Unsub/UnsubAll through a WithOnly view after Unsub/UnsubAll of its channel on the parent)"
 
+// ParentStaleWhat, ParentUnsubStaleWhat are matched by /verif/known_findings.json (findings 4 and 5, the
+// mirrored stale-list histories: the channel was removed THROUGH THE VIEW and the parent still lists it).
+const ParentStaleWhat = "process panic: send on closed channel (publish on the parent after Unsub/UnsubAll of its channel through a WithOnly view)"
+const ParentUnsubStaleWhat = "process panic: close of closed channel (Unsub/UnsubAll on the parent after Unsub/UnsubAll of its channel through a WithOnly view)"
+
 const foreignCid = 99 // a channel no PubSub of the scenario ever listed
 
 type Op struct {
@@ -230,7 +235,7 @@ var parked = map[string]bool{
 // stableFor, far longer than any timer the scenarios use (2 ms).
 var parkedSoft = map[string]bool{
 	"select": true, "select (no cases)": true, "sleep": true,
-	"sync.Mutex.Lock": true, "sync.Cond.Wait": true, "sync.WaitGroup.Wait": true,
+	"sync.Mutex.Lock": true, "sync.Cond.Wait": true,
 }
 
 const stableFor = 250 * time.Millisecond
@@ -819,6 +824,28 @@ func buildViewUnsub(b int, all, parentAll bool) Scenario {
 	return sc
 }
 
+// buildViewFirst (mirrored stale list): s := SubBuf(b); v := WithOnly(s); Unsub(s) or UnsubAll() THROUGH v
+// closes s while the parent still lists it; then on the parent a publish (kind != "": findings 4) or
+// Unsub(s)/UnsubAll() (finding 5). threads as in buildStale: 2 acts through the view, 3 on the parent.
+func buildViewFirst(b int, viewAll bool, kind string, slice, parentAll bool) Scenario {
+	sc := buildStale(b, false, slice, "Sync", 0)
+	if viewAll {
+		sc.Progs[2] = []Op{{Op: "unsuball", Obj: 1}}
+	} else {
+		sc.Progs[2] = []Op{{Op: "unsub", Obj: 1, Sub: 0}}
+	}
+	switch {
+	case kind != "":
+		sc.Progs[3][0].Obj, sc.Progs[3][0].W = 0, kind
+	case parentAll:
+		sc.Progs[3] = []Op{{Op: "unsuball"}}
+	default:
+		sc.Progs[3] = []Op{{Op: "unsub", Sub: 0}}
+	}
+	sc.Desc = fmt.Sprintf("view first: SubBuf(%d); WithOnly; viewAll=%v through the view; then on the parent kind=%q slice=%v parentAll=%v", b, viewAll, kind, slice, parentAll)
+	return sc
+}
+
 // buildParkedWriter: "a blocked Lock excludes new readers". A PubSync/PubSliceSync is blocked in a send
 // (late receivers) holding the read lock; Unsub(first) is parked in Lock; then a new reader or writer is
 // released while the writer is parked: a PubSync on the parent, a WithOnly(first)+PubSync through the view,
@@ -885,6 +912,17 @@ func run(c *core.Ctx) {
 		}
 	}
 	scs = append(scs, buildParkedWriter(2, 1, true, "pub"), buildParkedWriter(2, 1, true, "view"))
+	// findings 4 and 5: the channel is removed through the view first, then the parent publishes / unsubscribes (every run)
+	for b := 0; b <= 1; b++ {
+		for _, va := range []bool{false, true} {
+			for _, w := range kinds {
+				for _, slice := range []bool{false, true} {
+					scs = append(scs, buildViewFirst(b, va, w, slice, false))
+				}
+			}
+			scs = append(scs, buildViewFirst(b, va, "", false, false), buildViewFirst(b, va, "", false, true))
+		}
+	}
 	// third known finding: Unsub/UnsubAll through a stale view (every run)
 	for b := 0; b <= 1; b++ {
 		for _, pa := range []bool{false, true} {
@@ -1094,7 +1132,8 @@ type pubCall struct {
 	kind         string
 	evs          []int
 	targets      []int
-	stale        bool // made through a view that lists a channel the parent has already removed (closed)
+	obj          int
+	stale        bool // made on a PubSub that lists a channel already removed (closed) through ANOTHER PubSub (view <-> parent)
 }
 
 // reference walks the threads in release order (non-receiver threads are
@@ -1103,18 +1142,19 @@ type reference struct {
 	subs      []int           // root subscriptions, in order
 	views     map[int][]int   // object -> subscriptions
 	closedBy  map[int][2]int  // channel -> (thread, call) of the Unsub/UnsubAll that closes it
+	closedOn  map[int]int     // channel -> the PubSub object on which that call was made
 	rets      map[int][][]int // expected results of the non-receiver threads
 	pubs      []pubCall
 	published map[int][]int // channel -> events published to it, in publication order
 	allSync   map[int]bool  // channel -> every publish to it was a Sync variant
 	nch       int
-	// (thread, call, channel) of every Unsub/UnsubAll made through a view (object != 0) that closes a
-	// channel an earlier Unsub/UnsubAll on another PubSub has already closed
-	staleUnsubs [][3]int
+	// (thread, call, channel, object) of every Unsub/UnsubAll that closes a channel an earlier
+	// Unsub/UnsubAll on ANOTHER PubSub (parent <-> view) has already closed
+	staleUnsubs [][4]int
 }
 
 func refOf(sc Scenario) *reference {
-	rf := &reference{views: map[int][]int{}, closedBy: map[int][2]int{}, rets: map[int][][]int{},
+	rf := &reference{views: map[int][]int{}, closedBy: map[int][2]int{}, closedOn: map[int]int{}, rets: map[int][][]int{},
 		published: map[int][]int{}, allSync: map[int]bool{}}
 	seen := map[int]bool{}
 	nobj := 1
@@ -1157,12 +1197,10 @@ func refOf(sc Scenario) *reference {
 					rf.rets[t] = append(rf.rets[t], []int{2, nobj})
 					nobj++
 				case "pub1", "pubs":
-					pc := pubCall{thread: t, call: ci, kind: op.W, evs: op.Evs, targets: append([]int{}, subsOf(op.Obj)...)}
-					if op.Obj != 0 {
-						for _, s := range pc.targets {
-							if _, gone := rf.closedBy[s]; gone {
-								pc.stale = true
-							}
+					pc := pubCall{thread: t, call: ci, kind: op.W, evs: op.Evs, obj: op.Obj, targets: append([]int{}, subsOf(op.Obj)...)}
+					for _, s := range pc.targets {
+						if on, gone := rf.closedOn[s]; gone && on != op.Obj {
+							pc.stale = true
 						}
 					}
 					rf.pubs = append(rf.pubs, pc)
@@ -1191,20 +1229,22 @@ func refOf(sc Scenario) *reference {
 					case idx < 0:
 						rf.rets[t] = append(rf.rets[t], []int{4})
 					default:
-						if _, gone := rf.closedBy[op.Sub]; gone && op.Obj != 0 {
-							rf.staleUnsubs = append(rf.staleUnsubs, [3]int{t, ci, op.Sub})
+						if on, gone := rf.closedOn[op.Sub]; gone && on != op.Obj {
+							rf.staleUnsubs = append(rf.staleUnsubs, [4]int{t, ci, op.Sub, op.Obj})
 						} else {
 							rf.closedBy[op.Sub] = [2]int{t, ci}
+							rf.closedOn[op.Sub] = op.Obj
 						}
 						setSubs(op.Obj, append(append([]int{}, cur[:idx]...), cur[idx+1:]...))
 						rf.rets[t] = append(rf.rets[t], []int{3})
 					}
 				case "unsuball":
 					for _, s := range subsOf(op.Obj) {
-						if _, gone := rf.closedBy[s]; !gone {
+						if on, gone := rf.closedOn[s]; !gone {
 							rf.closedBy[s] = [2]int{t, ci}
-						} else if op.Obj != 0 {
-							rf.staleUnsubs = append(rf.staleUnsubs, [3]int{t, ci, s})
+							rf.closedOn[s] = op.Obj
+						} else if on != op.Obj {
+							rf.staleUnsubs = append(rf.staleUnsubs, [4]int{t, ci, s, op.Obj})
 						}
 					}
 					setSubs(op.Obj, nil)
@@ -1310,14 +1350,31 @@ func judge(c *core.Ctx, sc Scenario, o Outcome) {
 		case strings.Contains(msg, "close of closed channel"):
 			code = 2
 		}
-		if code == 2 && viewUnsubPanic(sc, rf, o) {
+		su, sp := 0, 0
+		if code == 2 {
+			su = viewUnsubPanic(sc, rf, o)
+		}
+		if code == 1 {
+			sp = stalePanic(sc, rf, o)
+		}
+		if su == 3 {
 			// third known finding: Unsub/UnsubAll through a view whose channel the parent has already removed
 			c.Count("known_finding_view_unsub_panics")
 			c.Fail(ViewUnsubWhat, detail(msg))
 			emit(c, sc, o, code)
-		} else if stalePanic(sc, rf, o) && code == 1 {
+		} else if su == 5 {
+			// fifth: Unsub/UnsubAll on the parent of a channel already removed through the view
+			c.Count("known_finding_parent_unsub_after_view_unsub_panics")
+			c.Fail(ParentUnsubStaleWhat, detail(msg))
+			emit(c, sc, o, code)
+		} else if sp == 2 {
 			c.Count("known_finding_stale_view_panics")
 			c.Fail(StaleWhat, detail(msg))
+			emit(c, sc, o, code)
+		} else if sp == 4 {
+			// fourth: publish on the parent, which still lists a channel removed through the view
+			c.Count("known_finding_parent_after_view_unsub_panics")
+			c.Fail(ParentStaleWhat, detail(msg))
 			emit(c, sc, o, code)
 		} else if knownPanic(sc, rf, o) && code == 1 {
 			c.Count("known_finding_panics")
@@ -1474,41 +1531,46 @@ func judge(c *core.Ctx, sc Scenario, o Outcome) {
 	emit(c, sc, o, 0)
 }
 
-// viewUnsubPanic: the process died in the phase that released an Unsub/UnsubAll made THROUGH a view
-// of a channel that an Unsub/UnsubAll on the parent had already closed (that call had returned at the
-// last quiescent point). Any other close of a closed channel is not this finding.
-func viewUnsubPanic(sc Scenario, rf *reference, o Outcome) bool {
+// viewUnsubPanic: the process died in the phase that released an Unsub/UnsubAll of a channel that an
+// Unsub/UnsubAll on the OTHER PubSub of a WithOnly pair had already closed (that call had returned at the
+// last quiescent point). 3: through the view after the parent; 5: on the parent after the view; 0: neither.
+func viewUnsubPanic(sc Scenario, rf *reference, o Outcome) int {
 	if len(o.Snaps) == 0 {
-		return false
+		return 0
 	}
 	s := o.Snaps[len(o.Snaps)-1]
 	next := s.Phase + 1
 	if next >= len(sc.Phases) {
-		return false
+		return 0
 	}
 	for _, su := range rf.staleUnsubs {
-		t, ch := su[0], su[2]
+		t, ch, obj := su[0], su[2], su[3]
 		if !releasedBy(sc, t, next) || releasedBy(sc, t, s.Phase) {
 			continue
 		}
 		if cb, gone := rf.closedBy[ch]; gone && len(s.Rets[cb[0]]) > cb[1] {
-			return true
+			switch {
+			case obj != 0 && rf.closedOn[ch] == 0:
+				return 3
+			case obj == 0 && rf.closedOn[ch] != 0:
+				return 5
+			}
 		}
 	}
-	return false
+	return 0
 }
 
-// stalePanic: the process died in the phase that released a publish made
-// through a WithOnly view one of whose channels the parent had already removed
-// (the Unsub/UnsubAll had returned at the last quiescent point).
-func stalePanic(sc Scenario, rf *reference, o Outcome) bool {
+// stalePanic: the process died in the phase that released a publish on a PubSub one of whose channels had
+// already been removed through the OTHER PubSub of a WithOnly pair (the Unsub/UnsubAll had returned at the
+// last quiescent point). 2: publish through the view after the parent; 4: on the parent after the view.
+func stalePanic(sc Scenario, rf *reference, o Outcome) int {
 	if len(o.Snaps) == 0 {
-		return false
+		return 0
 	}
 	s := o.Snaps[len(o.Snaps)-1]
 	next := s.Phase + 1
 	if next >= len(sc.Phases) {
-		return false
+		return 0
 	}
 	for _, p := range rf.pubs {
 		if !p.stale || !releasedBy(sc, p.thread, next) || releasedBy(sc, p.thread, s.Phase) {
@@ -1516,11 +1578,16 @@ func stalePanic(sc Scenario, rf *reference, o Outcome) bool {
 		}
 		for _, ch := range p.targets {
 			if cb, gone := rf.closedBy[ch]; gone && len(s.Rets[cb[0]]) > cb[1] {
-				return true
+				switch {
+				case p.obj != 0 && rf.closedOn[ch] == 0:
+					return 2
+				case p.obj == 0 && rf.closedOn[ch] != 0:
+					return 4
+				}
 			}
 		}
 	}
-	return false
+	return 0
 }
 
 // knownPanic: the scenario closes a channel (Unsub/UnsubAll) while a hand-off
